@@ -183,5 +183,23 @@ CHECKS["C16"] = {
     "note": "tree-shaped graphs only (statement); 4-argument handler; in-place container mutation along a '.' link "
             "is not constrained for the legacy handler; depth 4/5",
 }
+CHECKS["C10"] = {
+    "category": "model_checking",
+    "technique": MC + " (history BFS with fresh class hierarchy per execution and dedup on instance state; pristine-baseline differential + identity walk)",
+    "text": "Class with one trait per default kind (constant, Any list/dict copy, List/Dict/Set, Instance factory, "
+            "_name_default method, Tuple with container member before/after a constant member, Union with container "
+            "member, Array, Any(factory=...)) and a subclass overriding four defaults, rebuilt for every execution. "
+            "Every history up to depth 3 over ~115 operations on one instance (read, in-place mutation of the "
+            "default container, assign, del, on_trait_change/observe add+remove, add_trait same/new name, "
+            "remove_trait, trait_set, reset_traits, traits()/trait_get()/trait_names()/clone_traits() calls) for an "
+            "acting instance of the base or of the subclass. First reads must return the declared default, call no "
+            "handler and return the identical object on the second read; a default reported to handlers on del must "
+            "be the object read afterwards; _name_default runs at most once per unassigned period. After every "
+            "history sibling instances of both classes created before and after must read pristine defaults "
+            "silently, share no mutable container with anybody (identity walk incl. nested), and both classes' trait "
+            "tables, trait names and class-level defaults must be unchanged.",
+    "note": "depth 2 exhaustive + depth 3 from the deduplicated frontier over a sub-menu (quick) / full menu "
+            "(thorough); known finding: subclass override of an Any literal default is shared (upstream #1630)",
+}
 
 NOT_CLAIMED = {}
